@@ -49,7 +49,7 @@ class World(BaseWorld):
     def gen(self, seed, tier):
         st = Streams(seed)
         rc, ro = st.get('config'), st.get('ops')
-        n = rc.randrange(1, 10)
+        n = rc.randrange(1, 10) if tier != 'thorough' else rc.randrange(1, 25)
         small = rc.random() < 0.8
         w = {'set_dr': rc.uniform(0.3, 2), 'set_dk': rc.uniform(0.3, 2), 'set_length': rc.uniform(0.3, 2),
              'construct': rc.uniform(0, 0.5), 'roundtrip': rc.uniform(0.5, 2), 'linearity': rc.uniform(0.2, 1),
